@@ -1,5 +1,130 @@
-import GmQuic.Model.Cid
-import GmQuic.Model.Router
+import GmQuic.Lemmas.CidRouter
+/-!
+C14 — connection IDs are issued, used, retired and routed consistently.
+Only the property theorems; models in `GmQuic/Model/{Cid,Router}.lean`, lemmas in `GmQuic/Lemmas/Cid*.lean`.
+-/
 namespace GmQuic.Cid
-theorem placeholder_issue_seq (l : Local) (c : Cid) : (l.issue c).2.seq = l.largest := rfl
+
+/-! ## locally issued ids and the shared router (`Sys`: any number of connections on one router)
+
+`Hist Sys.init ops`: the only hypothesis on histories — the client-chosen original DCID handed to a new server
+connection is not a key of the router table at that moment (`QuicRouter::deliver` creates a connection only for a
+packet that found no entry).  Without it `QuicRouter::insert` overwrites another connection's entry
+(`router_insert_overwrites`). -/
+
+/-- lookup of an id returns connection `k` **iff** `k` currently owns it (issued and unretired, or its registered
+original DCID): live ids reach exactly their own connection, retired / cleared / dropped ones reach nobody. -/
+theorem router_domain_is_active_ids (ops : List Op) (h : Hist Sys.init ops) (c : Cid) (k : Nat) :
+    (Sys.run ops).table.lookup c = some k ↔ Owns (Sys.run ops) k c :=
+  (inv_run ops h).dom c k
+
+/-- no id is owned by two connections -/
+theorem router_owner_unique (ops : List Op) (h : Hist Sys.init ops) (c : Cid) (j k : Nat)
+    (hj : Owns (Sys.run ops) j c) (hk : Owns (Sys.run ops) k c) : j = k :=
+  (inv_run ops h).owner_unique hj hk
+
+/-- an id nobody owns any more (retired, or its connection cleared / dropped) is not routed -/
+theorem router_dead_id_unrouted (ops : List Op) (h : Hist Sys.init ops) (c : Cid)
+    (hd : ∀ k, ¬ Owns (Sys.run ops) k c) : (Sys.run ops).table.lookup c = none := by
+  cases hl : (Sys.run ops).table.lookup c with
+  | none => rfl
+  | some k => exact absurd ((router_domain_is_active_ids ops h c k).1 hl) (hd k)
+
+/-- after `clear()` / drop of its `ArcLocalCids` (and of its original-DCID entry) nothing is routed to a connection -/
+theorem router_dropped_conn_unrouted (ops : List Op) (h : Hist Sys.init ops) (k : Nat) (cn : Conn)
+    (hk : (Sys.run ops).conns[k]? = some cn) (hdq : cn.loc.dq = []) (hod : cn.odcid = none) (c : Cid) :
+    (Sys.run ops).table.lookup c ≠ some k := by
+  intro hl
+  obtain ⟨cn', h1, h2⟩ := (router_domain_is_active_ids ops h c k).1 hl
+  rw [hk] at h1; cases h1
+  rcases h2 with h2 | h2
+  · rw [hdq] at h2; cases h2
+  · rw [hod] at h2; cases h2
+
+/-- `clear` and `drop` leave no id behind -/
+theorem clear_leaves_nothing (l : Local) : l.clear.1.dq = [] ∧ l.clear.2 = l.active := ⟨rfl, rfl⟩
+
+example : Hist Sys.init [.conn none, .conn (some (.ext 7)), .setLimit 0 4, .retire 0 1, .retire 1 0, .drop 0,
+    .dropOdcid 1, .route (.gen 3)] := by
+  simp [Hist, OdcidFresh, Sys.step, Sys.init, Table.lookup, Table.insert, Table.erase]
+
+/-- the hypothesis matters: `QuicRouter::insert` overwrites — a new connection whose original DCID equals a live id
+of another connection takes over its routing. -/
+theorem router_insert_overwrites :
+    let s := Sys.run [.conn none, .conn (some (.gen 0))]
+    s.table.lookup (.gen 0) = some 1 ∧ Owns s 0 (.gen 0) := by
+  refine ⟨by decide, ⟨_, rfl, Or.inl ?_⟩⟩
+  decide
+
+/-- sequence numbers are issued consecutively: the NEW_CONNECTION_ID frames of a connection carry 1, 2, 3, … and the
+next number to be issued is one more than the number of frames sent -/
+theorem local_consecutive (ops : List Op) (h : Hist Sys.init ops) (k : Nat) (cn : Conn)
+    (hk : (Sys.run ops).conns[k]? = some cn) :
+    cn.frames.map (·.seq) = List.range' 1 cn.frames.length ∧ cn.loc.largest = cn.frames.length + 1 :=
+  ⟨((inv_run ops h).conn k cn hk).seqs, ((inv_run ops h).conn k cn hk).largest⟩
+
+/-- never more unretired ids outstanding than the peer's `active_connection_id_limit` (2 while unknown) -/
+theorem local_active_le_limit (ops : List Op) (h : Hist Sys.init ops) (k : Nat) (cn : Conn)
+    (hk : (Sys.run ops).conns[k]? = some cn) :
+    cn.loc.active.length ≤ cn.loc.limit.getD 2 ∧ cn.loc.active.Nodup :=
+  ⟨((inv_run ops h).conn k cn hk).act, ((inv_run ops h).conn k cn hk).nodup⟩
+
+/-- every retirement the peer asks for is answered one for one: retiring an active number removes exactly that id,
+issues exactly one new id with the next sequence number and keeps the number of active ids; retiring a number that
+is issued but no longer active changes nothing; a number never issued is an error. -/
+theorem retire_replaced_one_for_one (l : Local) (seq : Nat) (c : Cid) :
+    match l.retire seq c with
+    | .retired l' old f =>
+        l.dq[seq - l.off]? = some (some old) ∧ l.off ≤ seq ∧ l'.active.length = l.active.length ∧
+        f.seq = l.largest ∧ f.cid = c ∧ l'.largest = l.largest + 1 ∧ l'.limit = l.limit ∧
+        (l.active.Nodup → ∀ x, some x ∈ l'.dq ↔ (x = c ∨ (some x ∈ l.dq ∧ x ≠ old)))
+    | .noop => seq < l.largest ∧ (seq < l.off ∨ l.dq[seq - l.off]? = some none)
+    | .errUnissued => l.largest ≤ seq := by
+  split
+  · rename_i l' old f h
+    have h1 := Local.retire_retired h
+    exact ⟨h1.2.2.1, h1.1, Local.retire_active_length h, (Local.retire_frame h).1, (Local.retire_frame h).2,
+      Local.retire_largest h, h1.2.2.2.2.2.2, fun hnd x => Local.retire_mem h hnd x⟩
+  · rename_i h
+    unfold Local.retire at h
+    split at h; · cases h
+    split at h; · omega
+    split at h
+    · cases h
+    · rename_i hne
+      refine ⟨by omega, Or.inr ?_⟩
+      have hlt : seq - l.off < l.dq.length := by unfold Local.largest at *; omega
+      cases hg : l.dq[seq - l.off]? with
+      | none => rw [List.getElem?_eq_none_iff] at hg; omega
+      | some v =>
+        cases v with
+        | none => rfl
+        | some o => exact absurd hg (hne o)
+  · rename_i h; exact (Local.retire_err_iff l seq c).1 h
+
+/-- RETIRE_CONNECTION_ID for a sequence number greater than any sent is rejected (state untouched), for every
+reachable state of every connection on the router -/
+theorem retire_unissued_rejected (ops : List Op) (h : Hist Sys.init ops) (k : Nat) (cn : Conn)
+    (hk : (Sys.run ops).conns[k]? = some cn) (hlive : cn.dropped = false ∧ cn.poisoned = false)
+    (seq : Nat) (hseq : cn.frames.length < seq) :
+    (Sys.run ops).step (.retire k seq) = (Sys.run ops, .errUnissued) := by
+  have hl := (local_consecutive ops h k cn hk).2
+  have : cn.loc.retire seq (.gen (Sys.run ops).next) = .errUnissued :=
+    (Local.retire_err_iff _ _ _).2 (by omega)
+  simp [Sys.step, hk, hlive.1, hlive.2, this]
+
+example : (Sys.run [.conn none, .setLimit 0 3]).step (.retire 0 3) = (Sys.run [.conn none, .setLimit 0 3], .errUnissued) := by
+  rfl
+
+/-- … but with CONNECTION_ID_LIMIT_ERROR where RFC 9000 §19.16 demands PROTOCOL_VIOLATION (pinned tree) -/
+theorem retire_unissued_kind_fails : ¬ (Local.unissuedKind false = Local.rfcUnissuedKind) := by decide
+
+/-- with `repo_patches/fix-C14-retire-unissued-kind.diff` -/
+theorem retire_unissued_kind : Local.unissuedKind true = Local.rfcUnissuedKind := by decide
+
+/-- number of ids issued by `set_limit(n)`: `n - largest` loop iterations, nothing bounds it (DESIGN §7 item 9, C04) -/
+theorem set_limit_cost (l : Local) (next n : Nat) (l' : Local) (fs : List NewCid)
+    (h : l.setLimit next n = .ok l' fs) : fs.length = n - l.largest :=
+  (Local.setLimit_ok h).2.2.2.2.2.2.2.2.2
+
 end GmQuic.Cid
